@@ -106,6 +106,8 @@ def a1(ctx, rep):
                 rep.check(ok, 'A1', f'target-list:{parser}', 'the run\'s target list is handed down', f"{fn} passes `{vt.show(pc[0]['args'][1])[:50] if pc else '?'}` as target list to {parser}, not self.parse_context.target_os", {'file': f['file'], 'line': f['line']})
     pe = ctx.fnx('parse_enum', file='parser.rs')
     pv = [c for c in pe['calls'] if c.get('f') == 'parse_enum_variant']
+    if not pv:
+        raise core.Incomplete('A1: parse_enum hands its variants to no function called parse_enum_variant (the variant parser was renamed or became a method of a context type): how the target list reaches the variant level is not modelled for this shape')
     ok = bool(pv) and vt.show(vt.strip(pv[0]['args'][2])) == 'target_os'
     rep.check(ok, 'A1', 'target-list:parse_enum_variant', 'target list handed to the variant parser', 'parse_enum does not pass its target list to parse_enum_variant', {'file': pe['file'], 'line': pe['line']})
     for fn, n_expected in (('parse_struct', 1), ('parse_enum', 1), ('parse_enum_variant', 1)):
